@@ -43,14 +43,14 @@ func (s *classifySlice) exec(t []string) string {
 		fn := func() (int, error) { return val, err }
 
 		fbB := fallback.BuilderWithResult[int](7777)
-		applyConds(s.handle, func(e error) { fbB.HandleErrors(e) }, func(a any) { fbB.HandleErrorTypes(a) }, func(r int) { fbB.HandleResult(r) }, func(p func(int, error) bool) { fbB.HandleIf(p) })
+		applyConds(s.handle, func(e ...error) { fbB.HandleErrors(e...) }, func(a ...any) { fbB.HandleErrorTypes(a...) }, func(r int) { fbB.HandleResult(r) }, func(p func(int, error) bool) { fbB.HandleIf(p) })
 		fbApplied := 0
 		if r, _ := failsafe.Get(fn, fbB.Build()); r == 7777 {
 			fbApplied = 1
 		}
 
 		cbB := circuitbreaker.Builder[int]().WithFailureThreshold(100)
-		applyConds(s.handle, func(e error) { cbB.HandleErrors(e) }, func(a any) { cbB.HandleErrorTypes(a) }, func(r int) { cbB.HandleResult(r) }, func(p func(int, error) bool) { cbB.HandleIf(p) })
+		applyConds(s.handle, func(e ...error) { cbB.HandleErrors(e...) }, func(a ...any) { cbB.HandleErrorTypes(a...) }, func(r int) { cbB.HandleResult(r) }, func(p func(int, error) bool) { cbB.HandleIf(p) })
 		cb := cbB.Build()
 		failsafe.Get(fn, failsafe.Policy[int](cb))
 		cbFail := int(cb.Metrics().Failures())
@@ -64,8 +64,8 @@ func (s *classifySlice) exec(t []string) string {
 		crFail := int(cb2.Metrics().Failures())
 
 		rpB := retrypolicy.Builder[int]().WithMaxRetries(1)
-		applyConds(s.handle, func(e error) { rpB.HandleErrors(e) }, func(a any) { rpB.HandleErrorTypes(a) }, func(r int) { rpB.HandleResult(r) }, func(p func(int, error) bool) { rpB.HandleIf(p) })
-		applyConds(s.abort, func(e error) { rpB.AbortOnErrors(e) }, func(a any) { rpB.AbortOnErrorTypes(a) }, func(r int) { rpB.AbortOnResult(r) }, func(p func(int, error) bool) { rpB.AbortIf(p) })
+		applyConds(s.handle, func(e ...error) { rpB.HandleErrors(e...) }, func(a ...any) { rpB.HandleErrorTypes(a...) }, func(r int) { rpB.HandleResult(r) }, func(p func(int, error) bool) { rpB.HandleIf(p) })
+		applyConds(s.abort, func(e ...error) { rpB.AbortOnErrors(e...) }, func(a ...any) { rpB.AbortOnErrorTypes(a...) }, func(r int) { rpB.AbortOnResult(r) }, func(p func(int, error) bool) { rpB.AbortIf(p) })
 		aborted := false
 		rpB.OnAbort(func(failsafe.ExecutionEvent[int]) { aborted = true })
 		inv := 0
@@ -81,7 +81,7 @@ func (s *classifySlice) exec(t []string) string {
 		if t[0] == "oh" {
 			// the hedge delay must comfortably exceed the time an instant attempt needs to deliver its result
 			hpB := hedgepolicy.BuilderWithDelay[int](20 * time.Millisecond).WithMaxHedges(1)
-			applyConds(s.abort, func(e error) { hpB.CancelOnErrors(e) }, func(a any) { hpB.CancelOnErrorTypes(a) }, func(r int) { hpB.CancelOnResult(r) }, func(p func(int, error) bool) { hpB.CancelIf(p) })
+			applyConds(s.abort, func(e ...error) { hpB.CancelOnErrors(e...) }, func(a ...any) { hpB.CancelOnErrorTypes(a...) }, func(r int) { hpB.CancelOnResult(r) }, func(p func(int, error) bool) { hpB.CancelIf(p) })
 			hedged := false
 			hpB.OnHedge(func(failsafe.ExecutionEvent[int]) { hedged = true })
 			failsafe.Get(func() (int, error) { return val, err }, hpB.Build())
@@ -129,7 +129,7 @@ func genErrTree(r *rand.Rand, depth int, used map[int]bool) string {
 }
 
 func genCondList(r *rand.Rand) string {
-	n := r.Intn(4)
+	n := r.Intn(5)
 	if r.Intn(4) == 0 {
 		n = 0
 	}
@@ -139,7 +139,7 @@ func genCondList(r *rand.Rand) string {
 		case 0:
 			cs = append(cs, fmt.Sprintf("I%d", pick(r, 1, 2, 3, 4, 8, 9, 20, 21, 30, 100, 101, 102, 103, 105, 106, 107)))
 		case 1:
-			cs = append(cs, fmt.Sprintf("T%d", pick(r, tyPlain, tyVal, tyPtr, tyWrapC, tyMultiC, tyWrap, tyJoin, tyExceeded, tyDeadline)))
+			cs = append(cs, fmt.Sprintf("%s%d", pick(r, "T", "T", "U"), pick(r, tyPlain, tyVal, tyPtr, tyWrapC, tyMultiC, tyWrap, tyJoin, tyExceeded, tyDeadline)))
 		case 2:
 			cs = append(cs, fmt.Sprintf("R%d", r.Intn(3)))
 		default:
